@@ -228,6 +228,10 @@ class _ImmutableTaskList:
             return t.parent.id if t.parent else None
         if attribute_name == 'id':
             return t.id
+        if attribute_name == 'estimate':
+            return t.estimate
+        if attribute_name == 'spent':
+            return t.spent
         return t.__getattribute__(attribute_name) if attribute_name in t.__dict__ else None
 
     def __call__(
